@@ -184,6 +184,141 @@ func (s *scheduler) spawnFn(fn value) {
 
 func durationArg(i *interpreter, v value) int64 { return i.concInt(v) }
 
+// fallThrough is returned by an intrinsic that declines: the real body is interpreted.
+type fallThrough struct{}
+
+// Symbolic instants. The real time.Time arithmetic divides and multiplies by 1e9, which bit-blasting
+// solvers do not finish on 64-bit operands; a time.Time built by time.Unix(0, n) from a symbolic n is
+// therefore kept as the tagged structure {wall: symTimeTag, ext: n, loc} and the methods below are
+// summarised on n exactly as documented: Sub saturates at +-(2^63-1) (here: min/max Duration), Add and
+// UnixNano wrap modulo 2^64, comparisons compare n. CONTRACT: comparisons after an Add that wrapped
+// differ from the real (wider) Time; harness domains keep timestamps <= 2^63-1 as the properties do.
+const symTimeTag = uint64(0x7A7A7A7A00000001)
+
+func isSymTime(v value) (structure, bool) {
+	st, ok := v.(structure)
+	if !ok || len(st) != 3 {
+		return nil, false
+	}
+	w, ok := st[0].(uint64)
+	return st, ok && w == symTimeTag
+}
+
+func (i *interpreter) symTimeOf(fr *frame, v value) (*smt.Term, bool) {
+	if st, ok := isSymTime(v); ok {
+		return i.termOf(st[1]), true
+	}
+	return nil, false
+}
+
+// nanosOf gives the ns-since-epoch of any Time value (running the real UnixNano for concrete ones).
+func (i *interpreter) nanosOf(fr *frame, v value) *smt.Term {
+	if t, ok := i.symTimeOf(fr, v); ok {
+		return t
+	}
+	tp := i.prog.ImportedPackage("time")
+	m := i.prog.LookupMethod(tp.Type("Time").Type(), tp.Pkg, "UnixNano")
+	r := i.call(fr, 0, m, []value{v})
+	return i.termOf(r)
+}
+
+func mkSymTime(n value, loc value) value { return structure{symTimeTag, n, loc} }
+
+func init() {
+	m := stdIntrinsics
+	m["time.Unix"] = func(fr *frame, args []value) value {
+		if _, sym := args[1].(*smt.Term); !sym {
+			if _, sym2 := args[0].(*smt.Term); !sym2 {
+				return fallThrough{}
+			}
+		}
+		if s, ok := args[0].(int64); !ok || s != 0 {
+			panic(fr.i.unsupported("time.Unix with symbolic or non-zero seconds and symbolic nanoseconds"))
+		}
+		fr.i.noteStub("symbolic instants: time.Unix(0,n)/Sub/Add/UnixNano/compare summarised on n (Sub saturates, Add/UnixNano wrap)")
+		return mkSymTime(args[1], (*value)(nil))
+	}
+	same := func(fr *frame, args []value) value {
+		if _, ok := isSymTime(args[0]); ok {
+			return args[0]
+		}
+		return fallThrough{}
+	}
+	m["(time.Time).UTC"] = same
+	m["(time.Time).Local"] = same
+	m["(time.Time).In"] = same
+	m["(time.Time).Round"] = func(fr *frame, args []value) value {
+		if _, ok := isSymTime(args[0]); ok {
+			panic(fr.i.unsupported("Time.Round on symbolic instant"))
+		}
+		return fallThrough{}
+	}
+	m["(time.Time).UnixNano"] = func(fr *frame, args []value) value {
+		if st, ok := isSymTime(args[0]); ok {
+			return st[1]
+		}
+		return fallThrough{}
+	}
+	m["(time.Time).IsZero"] = func(fr *frame, args []value) value {
+		if _, ok := isSymTime(args[0]); ok {
+			return false // year 1 is not representable as int64 nanoseconds since 1970
+		}
+		return fallThrough{}
+	}
+	m["(time.Time).Add"] = func(fr *frame, args []value) value {
+		st, ok := isSymTime(args[0])
+		_, dsym := args[1].(*smt.Term)
+		if !ok && !dsym {
+			return fallThrough{}
+		}
+		i := fr.i
+		var loc value = (*value)(nil)
+		if ok {
+			loc = st[2]
+		}
+		n := i.nanosOf(fr, args[0])
+		return mkSymTime(lower(types.Int64, i.ctx.BVBin(smt.OpAdd, n, i.termOf(args[1]))), loc)
+	}
+	m["(time.Time).Sub"] = func(fr *frame, args []value) value {
+		_, ok1 := isSymTime(args[0])
+		_, ok2 := isSymTime(args[1])
+		if !ok1 && !ok2 {
+			return fallThrough{}
+		}
+		i := fr.i
+		c := i.ctx
+		a, b := i.nanosOf(fr, args[0]), i.nanosOf(fr, args[1])
+		d := c.BVBin(smt.OpSub, a, b)
+		zero := c.BVC(0, 64)
+		aNeg, bNeg, dNeg := c.BVCmp(smt.OpSLt, a, zero), c.BVCmp(smt.OpSLt, b, zero), c.BVCmp(smt.OpSLt, d, zero)
+		over := c.AndN(c.Not(aNeg), bNeg, dNeg)   // a >= 0, b < 0, wrapped negative => +inf
+		under := c.AndN(aNeg, c.Not(bNeg), c.Not(dNeg)) // a < 0, b >= 0, wrapped non-negative => -inf
+		r := c.Ite(over, c.BVC(uint64(1<<63-1), 64), c.Ite(under, c.BVC(uint64(1)<<63, 64), d))
+		return lower(types.Int64, r)
+	}
+	cmp := func(op string) intrinsic {
+		return func(fr *frame, args []value) value {
+			_, ok1 := isSymTime(args[0])
+			_, ok2 := isSymTime(args[1])
+			if !ok1 && !ok2 {
+				return fallThrough{}
+			}
+			i := fr.i
+			a, b := i.nanosOf(fr, args[0]), i.nanosOf(fr, args[1])
+			switch op {
+			case "Before":
+				return lowerBool(i.ctx.BVCmp(smt.OpSLt, a, b))
+			case "After":
+				return lowerBool(i.ctx.BVCmp(smt.OpSLt, b, a))
+			}
+			return lowerBool(i.ctx.Eq(a, b))
+		}
+	}
+	m["(time.Time).Before"] = cmp("Before")
+	m["(time.Time).After"] = cmp("After")
+	m["(time.Time).Equal"] = cmp("Equal")
+}
+
 func init() {
 	m := stdIntrinsics
 	m["(*sync.Mutex).Lock"] = mutexLock
